@@ -182,6 +182,19 @@ func cmtHeader(h int64) cmtproto.Header {
 	return cmtproto.Header{ChainID: engine.ChainID, Height: h, Time: engine.GenesisTime.Add(gotime.Duration(h-1) * 3 * gotime.Second)}
 }
 
+var exclusive sync.RWMutex
+
+// runShared / confirmPair: ordinary runs hold the lock shared; a confirmation re-executes both replicas
+// while nothing else runs in the process.
+func confirmPair(p pathSpec, dev twin.Deviation) (twin.PathResult, twin.PathResult, bool) {
+	exclusive.Lock()
+	defer exclusive.Unlock()
+	a := twin.RunPath(p.base, p.blocks, twin.Deviation{Index: -1}, false)
+	b := twin.RunPath(p.base, p.blocks, dev, false)
+	ok, _ := twin.Equal(a, b)
+	return a, b, ok
+}
+
 // ---- the check -------------------------------------------------------------------------------------
 
 func run(r *engine.Run) {
@@ -249,7 +262,9 @@ func run(r *engine.Run) {
 	resA := make([]twin.PathResult, len(paths))
 	done := make([]bool, len(paths))
 	complete := engine.ParallelFor(int64(len(paths)), 0, deadline, func(_ int, i int64) {
+		exclusive.RLock()
 		resA[i] = twin.RunPath(paths[i].base, paths[i].blocks, twin.Deviation{Index: -1}, true)
+		exclusive.RUnlock()
 		done[i] = true
 		tally.Eval()
 	})
@@ -336,9 +351,18 @@ func run(r *engine.Run) {
 	complete = engine.ParallelFor(int64(len(jobs)), 0, deadline, func(_ int, j int64) {
 		job := jobs[j]
 		p := paths[job.path]
+		exclusive.RLock()
 		resB := twin.RunPath(p.base, p.blocks, twin.Deviation{Index: job.occ.Index, Value: job.seed}, false)
+		exclusive.RUnlock()
 		tally.Eval()
 		if ok, why := twin.Equal(resA[job.path], resB); !ok {
+			// confirm with both replicas re-executed alone in the process before believing it
+			a2, b2, same := confirmPair(p, twin.Deviation{Index: job.occ.Index, Value: job.seed})
+			if same {
+				tally.Saw("harness-flake:replica-difference-not-reproduced")
+				return
+			}
+			_, why = twin.Equal(a2, b2)
 			tally.Violate(map[string]any{"base": p.base.Name, "blocks": p.names, "deviated_iteration": job.occ, "seed": job.seed}, p.names,
 				"C02/nondeterminism:map-iteration-order:"+job.occ.Site, fmt.Sprintf("replica with iteration %d (%s, %d entries) started at seed %d: %s", job.occ.Index, job.occ.Site, job.occ.Count, job.seed, why))
 			return
@@ -366,9 +390,21 @@ func run(r *engine.Run) {
 		}
 		engine.ParallelFor(int64(len(idxs)), 0, deadline, func(_ int, j int64) {
 			i := idxs[j]
+			exclusive.RLock()
 			resB := twin.RunPath(paths[i].base, paths[i].blocks, twin.Deviation{Index: -1}, false)
+			exclusive.RUnlock()
 			tally.Eval()
 			if ok, why := twin.Equal(resA[i], resB); !ok {
+				exclusive.Lock()
+				gotime.VerifClockSkewSec = 0
+				a2 := twin.RunPath(paths[i].base, paths[i].blocks, twin.Deviation{Index: -1}, false)
+				gotime.VerifClockSkewSec = skew
+				b2 := twin.RunPath(paths[i].base, paths[i].blocks, twin.Deviation{Index: -1}, false)
+				exclusive.Unlock()
+				if same, _ := twin.Equal(a2, b2); same {
+					tally.Saw("harness-flake:replica-difference-not-reproduced")
+					return
+				}
 				tally.Violate(map[string]any{"base": paths[i].base.Name, "blocks": paths[i].names, "clock_skew_s": skew}, paths[i].names, "C02/nondeterminism:wall-clock", why)
 			}
 		})
